@@ -207,6 +207,10 @@ def fam_special() -> list[dict]:
                 "inputs": [inp("a", (3, 1)), inp("b", (4, 5)), inp("c", (4,))],
                 "calls": [{"op": "einsum", "spec": "ij,jk,j->ik", "args": [1, 2, 3]}],
                 "outs": {"out": 4}})
+    # a function call: documented NotImplementedError
+    out.append({"id": "call/traced", "inputs": [inp("x", (2, 3))],
+                "calls": [{"op": "trace_call", "a": 1}, {"op": "add", "a": 2, "b": 1}],
+                "outs": {"out": 3}})
     # a chain through a reduction and back (tags reach a reduction descriptor only)
     out.append({"id": "chain/matvec", "inputs": [inp("m", (2, 3)), inp("v", (3,)),
                                                  inp("w", (2,))],
@@ -232,7 +236,16 @@ def base_programs(tier: str, rng: np.random.Generator) -> list[dict]:
     progs += list(progspace.fam_csr(rng, 4 if quick else 12))
     for p in progs:
         p["family"] = p["id"].split("/")[0]
-    return progs
+    # the same graphs with tags of a UniqueTag class
+    uniq = [copy.deepcopy(p) for p in progs
+            if p["id"] in ("ew/add/0", "ew/add/1", "ew/mul/4", "red/sum/1", "share/diamond",
+                           "einsum/0/ij,jk->ik", "einsum/bcast_redn", "concat_sp/0",
+                           "tr/2x3/10", "alias/dict_entry", "dist/holder", "chain/matvec",
+                           "expand/3", "reshape/1", "stack/2x3/k2/ax1")]
+    for p in uniq:
+        p["id"] = "unique/" + p["id"]
+        p["family"] = "unique"
+    return progs + uniq
 
 
 # --------------------------------------------------------------------------
@@ -249,11 +262,10 @@ def opts_for(pid: str) -> dict:
 def slots_of(prog: dict) -> list[tuple]:
     """(value number, "ax" | "rd", index) of every axis and reduction
     descriptor of every value of the (untagged) program"""
-    import pytato as pt
     _, values = axes.build({**prog, "axtags": [], "rdtags": []})
     out = []
     for k, v in enumerate(values, start=1):
-        if isinstance(v, pt.Array):
+        if axes.taggable(v):
             out += [(k, "ax", i) for i in range(v.ndim)]
             out += [(k, "rd", j) for j in range(axes.n_redn(v))]
     return out
@@ -296,6 +308,25 @@ def placements(prog: dict, tier: str) -> list[dict]:
     return out
 
 
+def unique_placements(prog: dict, tier: str) -> list[dict]:
+    """two tags of one UniqueTag class (and a shared plain tag) on every pair
+    of slots: NonUniqueTagError exactly where the two may meet"""
+    slots = slots_of(prog)
+    out = []
+    pairs = [(i, j) for i, j in itertools.product(range(len(slots)), repeat=2) if i != j]
+    rng = np.random.default_rng([seed(), h32(prog["id"]), 9])
+    cap = 12 if tier == "quick" else 10 ** 9
+    sel = pairs if len(pairs) <= cap else [pairs[i] for i in rng.permutation(len(pairs))[:cap]]
+    for i, j in sel:
+        marks = [(slots[i], "U:1"), (slots[j], "U:2")]
+        if (i + j) % 2:
+            marks += [(slots[i], "B"), (slots[j], "B")]
+        q = place(prog, f"{prog['id']}#u:{slots[i]}{slots[j]}", marks)
+        q["opts"]["tag_t"] = "U" if (i + 2 * j) % 3 == 0 else "Tag"
+        out.append(q)
+    return out
+
+
 def random_programs(tier: str) -> list[dict]:
     rng = np.random.default_rng([seed(), 77])
     n = 700 if tier == "quick" else 6000
@@ -333,7 +364,10 @@ def realise(inst: dict, k: int) -> dict:
     operation on the two (its kind chosen by the instance number), a MAY
     equation goes through a concatenation with an empty array."""
     n = inst["n"]
-    inputs = [inp(f"v{i}", (3,)) for i in range(1, n + 1)] + [inp("empty", (0,))]
+    # (every gadget's intermediate nodes are private to its equation: a shared
+    # intermediate would relate two equations behind the back of an ignored vertex)
+    inputs = [inp(f"v{i}", (3,)) for i in range(1, n + 1)] + \
+             [inp(f"empty{e}", (0,)) for e in range(len(inst["may"]))]
     calls: list[dict] = []
     outs: dict[str, int] = {}
 
@@ -355,11 +389,11 @@ def realise(inst: dict, k: int) -> dict:
         elif kind == 3:
             add({"op": "einsum", "spec": "i,i->", "args": [i, j]})       # via a reduction
         else:
-            r = add({"op": "roll", "a": i, "shift": 1, "axis": 0}, out=False)
+            r = add({"op": "roll", "a": i, "shift": [1, 2, 4][e], "axis": 0}, out=False)
             # (a rolled axis has no equation: this pair needs its own)
             add({"op": "stack", "arrays": [r, j, i], "axis": 1})
-    for i, j in inst["may"]:
-        c = add({"op": "concatenate", "arrays": [i, n + 1], "axis": 0}, out=False)
+    for e, (i, j) in enumerate(inst["may"]):
+        c = add({"op": "concatenate", "arrays": [i, n + 1 + e], "axis": 0}, out=False)
         add({"op": "add", "a": c, "b": j})
     for i in range(1, n + 1):       # every vertex is an output (unrelated ones stay unrelated)
         outs[f"v{i}"] = i
@@ -443,6 +477,19 @@ def run_program(prog: dict) -> dict:
     try:
         b = unify_axes_tags(g, **kw)
     except Exception as ex:      # noqa: BLE001
+        if type(ex).__name__ == "NonUniqueTagError":
+            # allowed iff the specification lets two exclusive tags meet on an axis
+            from pytato.transform.metadata import AxisIgnoredForPropagationTag
+            rec = {"id": prog["id"], "a": ga, "raised": f"NonUniqueTagError: {ex}"[:200],
+                   "groups": axes.conflicting_pairs(tags_a),
+                   "prop": sorted(n for n, t in tags_a.items() if isinstance(t, tag_t)),
+                   "ign": sorted(n for n, t in tags_a.items()
+                                 if isinstance(t, AxisIgnoredForPropagationTag)),
+                   "redn": bool(opts["redn"])}
+            res.update(record=rec, hand=axes.judge(rec), nvars=axes.n_axis_vars(ga),
+                       nnodes=len(ga["nodes"]), kinds=sorted({n["kind"] for n in ga["nodes"]}),
+                       status="unique_tag_error")
+            return res
         res["problems"].append({"clause": "raised", "what": f"{type(ex).__name__}: {ex}"[:300]})
         return res
     if json.dumps(axes.export(g)[0], sort_keys=True) != snap:
@@ -479,9 +526,9 @@ def compare_with_instance(prog: dict, rec: dict) -> dict:
     inst = prog["inst"]
     a, b, m = rec["a"], rec["b"], rec["map"]
     name = {101: axes.tname(axes.make_tag("A")), 102: axes.tname(axes.make_tag("B"))}
-    out = {"verdict": "ok", "impl_exact": True}
+    out = {"verdict": "ok", "is_lower": True, "is_leaky_model": True}
     if not m:
-        return {"verdict": "structure", "impl_exact": False}
+        return {"verdict": "structure", "is_lower": False, "is_leaky_model": False}
     outpos = {o["name"]: o["node"] for o in a["outs"]}
     for v in range(1, inst["n"] + 1):
         p = outpos[f"v{v}"]
@@ -494,8 +541,10 @@ def compare_with_instance(prog: dict, rec: dict) -> dict:
             out["verdict"] = "missing"
         elif not got <= given | upper and out["verdict"] == "ok":
             out["verdict"] = "extra"
+        if got != given | lower:
+            out["is_lower"] = False
         if got != given | impl:
-            out["impl_exact"] = False
+            out["is_leaky_model"] = False
     return out
 
 
@@ -507,6 +556,8 @@ def _expand_and_run(progs: list[dict]) -> list[list[dict]]:
                 plist = [p]
             elif p.get("family") == "random":
                 plist = random_placements(p)
+            elif p.get("family") == "unique":
+                plist = unique_placements(p, p.get("tier", "quick"))
             else:
                 plist = placements(p, p.get("tier", "quick"))
         except (rp.Rejected, Unsupported) as ex:
@@ -589,7 +640,7 @@ def main(tier: str, only: list[dict] | None = None) -> int:
     for r in results:
         st = r["status"].split(":")[0]
         status[st] = status.get(st, 0) + 1
-        if st in ("unsupported", "rejected", "crashed", "dedup_failed"):
+        if st in ("unsupported", "rejected", "crashed", "dedup_failed", "non_array_output"):
             d = run.coverage.setdefault("skipped_reasons", {})
             d[r["status"][:70]] = d.get(r["status"][:70], 0) + 1
         for pr in r["problems"]:
@@ -608,7 +659,11 @@ def main(tier: str, only: list[dict] | None = None) -> int:
                                shards=NCPU if len(records) > 200 else 1)
     by_id = {r["id"]: r for r in results if r["record"] is not None}
     clauses: dict[str, int] = {}
-    gen_stats = {"instances": 0, "impl_model_exact": 0}
+    # (result_is_leaky_model: how many real results coincide with the documented
+    # NEGATIVE example, the propagation graph with tag vertices -- all of them
+    # before /repo commit 74f77a7, only the leak-free ones after it)
+    gen_stats = {"instances": 0, "result_is_lower_bound": 0, "result_is_leaky_model": 0,
+                 "leak_prone_instances": 0}
     for rec in records:
         r = by_id[rec["id"]]
         v = val.verdicts[rec["id"]]
@@ -623,7 +678,10 @@ def main(tier: str, only: list[dict] | None = None) -> int:
         clauses[v] = clauses.get(v, 0) + 1
         if "gen" in r:
             gen_stats["instances"] += 1
-            gen_stats["impl_model_exact"] += bool(r["gen"]["impl_exact"])
+            gen_stats["result_is_lower_bound"] += bool(r["gen"]["is_lower"])
+            gen_stats["result_is_leaky_model"] += bool(r["gen"]["is_leaky_model"])
+            gen_stats["leak_prone_instances"] += \
+                r["prog"]["inst"]["impl"] != r["prog"]["inst"]["lower"]
             gv = r["gen"]["verdict"]
             if gv != "ok" and v == "ok":
                 raise MachineryError(
@@ -636,7 +694,8 @@ def main(tier: str, only: list[dict] | None = None) -> int:
                           f"unify_axes_tags(tag_t={opts['tag_t']}, unify_redn_descrs="
                           f"{opts['redn']}) on {rec['id']}: clause '{v}': {detail}",
                           record=r["prog"], observed=detail,
-                          sig={"clause": v, "family": r["family"]})
+                          sig={"clause": v, "family": r["family"],
+                               "base": rec["id"].split("#")[0]})
     if mc_thread is not None:
         mc_thread.join()
         if "error" in box:
